@@ -21,6 +21,8 @@ VERIF = extract.VERIF
 BUILD = os.path.join(VERIF, "build", "verus")
 VERUS = shutil.which("verus") or "/usr/local/bin/verus"
 RLIMIT = os.environ.get("VERIF_RLIMIT", "40")
+import threading
+GEN_LOCK = threading.Lock()
 
 SEMANTIC = [
     "postcondition not satisfied",
@@ -184,8 +186,9 @@ def run_unit(unit_name, template_rel, variant):
     tpl = os.path.join(VERIF, template_rel)
     os.makedirs(BUILD, exist_ok=True)
     try:
-        text, stats = extract.generate(tpl, variant, canary=False)
-        ctext, _ = extract.generate(tpl, variant, canary=True)
+        with GEN_LOCK:   # the generator keeps per-template state; only verus runs in parallel
+            text, stats = extract.generate(tpl, variant, canary=False)
+            ctext, _ = extract.generate(tpl, variant, canary=True)
     except ExtractError as e:
         res["status"] = "undecided"
         res["undecided"] = "extraction: %s" % e
